@@ -1,7 +1,7 @@
 (* C13 -- data channel lifecycle: faithful open, forward-only states.
    Property theorems only; proofs in Proof/ChanDcepP.v, Proof/ChanP.v and Proof/ChanBufP.v. *)
 From Coq Require Import ZArith List Bool.
-From AV Require Import Lib.Bytes Gen.SctpConst Model.Chan Proof.ChanDcepP Proof.ChanP Proof.ChanBufP Proof.ChanOpenP Proof.ChanCloseP Proof.ChanNegP Proof.ChanIdsP.
+From AV Require Import Lib.Bytes Gen.SctpConst Model.Chan Proof.ChanDcepP Proof.ChanP Proof.ChanBufP Proof.ChanOpenP Proof.ChanCloseP Proof.ChanNegP Proof.ChanIdsP Proof.ChanPurgeP.
 Import ListNotations.
 Local Open Scope Z_scope.
 
@@ -165,6 +165,26 @@ Theorem C13_close_frees_id : forall s h i hs, cinv s -> (h < length (chans s))%n
   (forall neg ordered maxrt maxlt label proto, ~ In (EvRaise 1) (snd (create s3 neg (Some i) ordered maxrt maxlt label proto))).
 Proof. exact close_frees_id. Qed.
 Print Assumptions C13_close_frees_id.
+
+(* 8a. Nothing is left to be sent for a closed channel.  For EVERY input list: a message waiting
+   in the data-channel queue (user data accepted by send(), a DCEP OPEN / ACK) belongs to a channel
+   that is not `closed` - when a channel closes (its stream reset is answered, it is closed
+   locally, the association ends) what it still had queued is dropped, and nothing is queued for
+   it afterwards.  Hence _data_channel_flush never transmits on a stream whose reset has completed:
+   the next channel using the id cannot receive a message of the previous one.  (Before the repair
+   in /repo the code kept such messages and sent them after the reset.) *)
+Theorem C13_closed_nothing_queued : forall role seq is h pp data,
+  In (h, pp, data) (queue (fst (run (init role seq) is))) ->
+  ch_state (getc (fst (run (init role seq) is)) h) <> Closed.
+Proof. exact closed_nothing_queued. Qed.
+Print Assumptions C13_closed_nothing_queued.
+
+(* ... and at the moment the peer's answer to the reset of stream i arrives, everything still
+   queued for the channel registered under i is dropped *)
+Theorem C13_reset_answer_purges : forall s i h, tget (table s) i = Some h ->
+  forall it, In it (queue (fst (chan_closed s i))) -> fst (fst it) <> h.
+Proof. exact chan_closed_purges. Qed.
+Print Assumptions C13_reset_answer_purges.
 
 (* 8b. close() while this end's association is still being set up (COOKIE_WAIT / COOKIE_ECHOED;
    hs = true) on a channel the peer already knows (it has stream id i, e.g. it was opened by the
